@@ -107,7 +107,7 @@ func c11case(c *wk.Ctx, idx int, r *rand.Rand, h c11history) {
 	hold := map[uint64]bool{}
 	sawNewSaltAt := map[int64]bool{}
 	var bundled [][2]int64 // (msg_id, seq_no) of rejected acknowledgements whose bad_server_salt travels with the next answer
-	var grace int64 // a salt announced by new_session_created is valid at once; the previous one stays valid until the client has acknowledged
+	var grace int64        // a salt announced by new_session_created is valid at once; the previous one stays valid until the client has acknowledged
 	graceOn := false
 	e, err := newRPCEnv(c, idx, r, envOpts{
 		Fresh: h.Fresh,
